@@ -40,7 +40,18 @@ def parse_exec_case(text):
     flags = [int(x) for x in t[8:8 + nf]]
     N = int(t[8 + nf])
     nums = [int(x) for x in t[9 + nf:]]
-    return ExecCase(d, per, H, B, mode, [nums[k * d:(k + 1) * d] for k in range(N)], stop, flags, t[0] == "execrb")
+    ec = ExecCase(d, per, H, B, mode, [nums[k * d:(k + 1) * d] for k in range(N)], stop, flags, t[0] == "execrb")
+    if B < 0:
+        ec.B = T.auto_block_size(ec, -B)      # automatic block size, B = -(hardware threads)
+    return ec
+
+
+def exec_model_text(text):
+    """the same case with the automatic block size replaced by its value, for the model"""
+    f = text.split()
+    if int(f[4]) < 0:
+        f[4] = str(parse_exec_case(text).B)
+    return " ".join(f)
 
 
 class Call:
